@@ -91,16 +91,11 @@ let () =
            let ks tag l = print_endline (tag ^ " " ^ String.concat "," (List.sort compare (List.map implode l))) in
            ks "SD" t.sdefs; ks "ED" t.edefs; ks "UD" t.udefs; ks "ID" t.idefs;
            List.iter (fun q -> Printf.printf "R %s %s\n" q (hx (resolved t (e q)))) qs;
-           (* avoidance predicate of finding C10-backend-typedef-self-alias-recursion: some  typedef BASE ALIAS;  stores ALIAS -> ALIAS *)
-           let rec selfalias t = function
-             | [] -> false
-             | d :: r -> (match td_step t d with
-                 | (t', None) -> (match d with DTAlias (_, a) -> td_lookup t'.tm a = Some a | _ -> false) || selfalias t' r
-                 | (_, Some _) -> false) in
-           Printf.printf "SELFALIAS %d\n" (if selfalias empty_tables (List.map decl_of ds) then 1 else 0);
            print_endline "END"
        | "structs" ->
-           (* line: sf:N (struct N;)  sd:N:T0.v,T1.p,T2.a (struct N { T0 m0; T1* m1; T2[2] m2; };)   out: "ERR -|SR|CR", "SD keys", "END" *)
+           (* line: sf:N (struct N;)  sd:N:T0.v,T1.p,T2.a (struct N { T0 m0; T1* m1; T2[2] m2; };)  [| X>Y,X>Y,..]
+              out: "ERR -|SR|CR", "SD keys", per query X>Y (one cycle check detectCircularReference(X, Y, {}, ..) on the final table)
+              "DC X>Y <answer 0|1> <visited set on return, sorted> <activations>", "END" *)
            let e = explode in
            let mem_of w = match String.split_on_char '.' w with
              | [t; "v"] -> (e t, MValue) | [t; "p"] -> (e t, MPtr) | [t; "a"] -> (e t, MArr) | _ -> failwith ("bad member " ^ w) in
@@ -109,9 +104,18 @@ let () =
              | ["sd"; n; ms] -> SDef (e n, List.map mem_of (List.filter (fun x -> x <> "") (String.split_on_char ',' ms)))
              | ["sd"; n] -> SDef (e n, [])
              | _ -> failwith ("bad sdecl " ^ w) in
-           let (g, err) = sg_run [] (List.map decl_of (words l)) in
+           let parts = String.split_on_char '|' l in
+           let qs = match parts with _ :: q :: _ -> List.filter (fun x -> x <> "") (String.split_on_char ',' (String.trim q)) | _ -> [] in
+           let (g, err) = sg_run [] (List.map decl_of (words (List.hd parts))) in
            print_endline ("ERR " ^ (match err with None -> "-" | Some (ESelfRec _) -> "SR" | Some (ECircular _) -> "CR"));
            print_endline ("SD " ^ String.concat "," (List.sort compare (List.map (fun (k, _) -> implode k) g)));
+           List.iter (fun q -> match String.split_on_char '>' q with
+             | [x; y] ->
+                 let (ans, vis) = check_query g (e x) (e y) in
+                 Printf.printf "DC %s %d %s %d\n" q (if ans then 1 else 0)
+                   (let v = List.sort compare (List.map implode vis) in if v = [] then "-" else String.concat "," v)
+                   (int_of_nat (detect_calls g (e x) (e y)))
+             | _ -> failwith ("bad query " ^ q)) qs;
            print_endline "END"
        | _ -> print_endline "?");
       flush stdout
